@@ -373,3 +373,70 @@ Proof.
   exists (mkValue (Some (mkDate 2010 7 1)) (mkPct 180 3) None [] [] false).
   split; [reflexivity|]. split; [vm_compute; discriminate|reflexivity].
 Qed.
+
+(* ---------------------------------------------------------------------------------------- *)
+(* checkRateValuesOrder (the order test of RateDef validation)                               *)
+(* ---------------------------------------------------------------------------------------- *)
+
+Definition all_dated (vals : list ratevalue) : Prop :=
+  forall v, In v vals -> unqualified v = true -> exists s, rv_since v = Some s /\ date_valid s = true.
+
+Lemma sk_lt_trans a b c : sk_lt a b -> sk_lt b c -> sk_lt a c.
+Proof.
+  unfold sk_lt; destruct a, b, c; cbn; intros; try reflexivity; try discriminate.
+  eapply date_before_trans; eassumption.
+Qed.
+
+Lemma check_order_sound_aux vals :
+  forall prev, (prev = None \/ exists p, prev = Some p /\ date_valid p = true) ->
+  check_order vals prev = Some true -> all_dated vals ->
+  strictly_descending (filter unqualified vals) /\
+  (forall p, prev = Some p -> Forall (fun v => sk_lt (since_key v) (Some p)) (filter unqualified vals)).
+Proof.
+  induction vals as [|v r IH]; intros prev Hprev Hc Hd.
+  - split; [constructor|]. intros; constructor.
+  - cbn [check_order] in Hc. cbn [filter].
+    assert (Hd' : all_dated r) by (intros x Hx; apply Hd; right; assumption).
+    destruct (unqualified v) eqn:Eu; cbn [negb] in Hc.
+    + destruct (Hd v (or_introl eq_refl) Eu) as (s & Hs & Hv).
+      assert (Hk : since_key v = Some s) by (unfold since_key; rewrite Hs, Hv; reflexivity).
+      assert (Hrec : check_order r (Some s) = Some true /\
+                     (forall p, prev = Some p -> date_before s p = true)).
+      { destruct Hprev as [-> | (p & -> & Hp)].
+        - rewrite Hs in Hc. split; [assumption|]. intros p Hp; discriminate.
+        - rewrite Hp, Hs, Hv in Hc. cbn [andb] in Hc.
+          destruct (date_before s p) eqn:Eb; cbn [negb] in Hc; [|discriminate].
+          split; [assumption|]. intros p' Hp'; injection Hp' as <-; assumption. }
+      destruct Hrec as [Hrec Hlt].
+      destruct (IH (Some s) (or_intror (ex_intro _ s (conj eq_refl Hv))) Hrec Hd') as [Hs1 Hs2].
+      specialize (Hs2 s eq_refl).
+      split.
+      * constructor; [assumption|]. rewrite Hk. exact Hs2.
+      * intros p Hp. constructor.
+        -- unfold sk_lt. rewrite Hk. cbn. apply Hlt; assumption.
+        -- eapply Forall_impl; [|exact Hs2]. intros x Hx. eapply sk_lt_trans; [exact Hx|].
+           unfold sk_lt; cbn. apply Hlt; assumption.
+    + exact (IH prev Hprev Hc Hd').
+Qed.
+
+(* the validator accepts => the unqualified values are strictly descending, PROVIDED every
+   unqualified value carries a valid date *)
+Lemma check_order_sound vals :
+  check_order vals None = Some true -> all_dated vals -> strictly_descending (filter unqualified vals).
+Proof. intros Hc Hd. exact (proj1 (check_order_sound_aux vals None (or_introl eq_refl) Hc Hd)). Qed.
+
+(* without that proviso the validator is not sound for the property's order: an undated value listed
+   FIRST is accepted although it shadows every dated value after it; an undated value listed LAST
+   (the only sensible place) makes the code dereference nil; an invalid date switches the test off *)
+Lemma check_order_gaps :
+  let dated y := mkValue (Some (mkDate y 1 1)) (mkPct 1 2) None [] [] false in
+  let undated := mkValue None (mkPct 2 2) None [] [] false in
+  let invalid := mkValue (Some (mkDate 2021 2 30)) (mkPct 3 2) None [] [] false in
+  check_order [undated; dated 2020] None = Some true /\
+  table_unqualified_strict [undated; dated 2020] = false /\
+  value (mkDate 2021 1 1) [] [] [undated; dated 2020] = Some undated /\
+  check_order [dated 2020; undated] None = None /\
+  table_unqualified_strict [dated 2020; undated] = true /\
+  check_order [dated 2020; invalid; dated 2022] None = Some true /\
+  table_unqualified_strict [dated 2020; invalid; dated 2022] = false.
+Proof. vm_compute. repeat split. Qed.
